@@ -176,6 +176,10 @@ BDD_OP_MUTS = {
  'apply_cache_row_shared': (B, "    if A not in r_cache:\n        r_cache[A] = dict()", "    if A not in r_cache:\n        r_cache[A] = r_cache.get(B, dict())", ['apply']),
  'apply_cache_transposed': (B, "    if B in r_cache[A]:\n        return r_cache[A][B]", "    if B in r_cache[A] and A in r_cache[B]:\n        return r_cache[B][A]", ['apply']),
 }
+BDD_OP_MUTS.update({
+ 'compute_same_var_as_sons_of_A': (B, "    if A.var == B.var:\n        return BDDsons_and_BDDsons(operator, A, B, ordering, r_cache)", "    if A.var == B.var:\n        return BDDsons_and_BDD(operator, A, B, ordering, r_cache)", ['compute']),
+ 'compute_order_test_flipped': (B, "    if (isinstance(B, BDDTerminalNode) or ordering.in_order(A.var, B.var)):\n        return BDDsons_and_BDD(operator, A, B, ordering, r_cache)", "    if (isinstance(B, BDDTerminalNode) or ordering.in_order(B.var, A.var)):\n        return BDDsons_and_BDD(operator, A, B, ordering, r_cache)", ['compute']),
+})
 O = 'BDD/OBDD.py'
 BDD_OP_MUTS.update({
  'obdd_and_is_or': (O, "        return self.apply((lambda a, b: a and b), A)", "        return self.apply((lambda a, b: a or b), A)", ['OBDD.__and__']),
